@@ -44,6 +44,7 @@ type FuncContract struct {
 	NoInlineCheck bool
 	ClausePropsReq map[int][]string
 	WaitInv []string
+	NoCallPre bool // callee preconditions are not checked inside this function (listed as an open hole)
 	ObjInv []string // object invariant: assumed at entry / proved at exit of the body; hidden from callers in other packages
 	AtCall map[string][]string // callee short name -> assertions checked immediately before each such call
 	NoFrame bool
@@ -139,7 +140,7 @@ func pkgPathOf(root, file string) string {
 var clauseKeywords = map[string]bool{
 	"props": true, "requires": true, "ensures": true, "modifies": true, "loop": true, "arith": true,
 	"nosafety": true, "role": true, "entry": true, "trusted": true, "witness": true, "lemma": true,
-	"exitlocks": true, "replay": true, "waitinv": true, "lockschange": true, "like": true, "noframe": true, "atcall": true, "invariant": true,
+	"exitlocks": true, "replay": true, "waitinv": true, "lockschange": true, "like": true, "noframe": true, "atcall": true, "invariant": true, "nocallpre": true,
 }
 
 func (cs *Contracts) parseFile(root, file string) error {
@@ -302,6 +303,8 @@ func (cs *Contracts) parseFile(root, file string) error {
 			cur.Like = rest
 		case "noframe":
 			cur.NoFrame = true
+		case "nocallpre":
+			cur.NoCallPre = true
 		case "invariant":
 			cur.ObjInv = append(cur.ObjInv, rest)
 			lastClause = &cur.ObjInv[len(cur.ObjInv)-1]
